@@ -15,7 +15,7 @@ pub const DEF: PropDef = PropDef {
     replay,
     level: "fault_enumeration",
     rule: "fault enumeration on transport messages: (pattern class interactive/one-way, cipher, hash, DH, backend default / ring-first, direction, payload length 0, 1, 33, 65519 and one entry per configuration of a ladder 2..17, 100, 1000, 4080, 4096, 9000, 12288, 16384, 32768, 65503, 65518, number of genuine messages already exchanged) x forgery: single-bit flips (boundary + random; ALL bits in thorough), every truncation incl. < 16 bytes, extensions, reflection to the sender, same-index message of a second session with other keys, a later message delivered early, a replay of an accepted message, random and all-zero byte strings of 16 / 17 / message length; stateless mode: a genuine message for nonce n presented under n' != n with n' = n ^ (1<<b) for all 64 b, boundary values and random 64-bit values. Oracle: the forged delivery returns Err, and afterwards the genuine message for this session, direction and nonce is accepted and returns exactly the written payload. Non-trivial = a forged/misdirected delivery against a session that accepts the genuine message; distinct by (config, forgery)",
-    technique: "fault enumeration with accept-iff-genuine oracle over both cipher backends; proptest for random forgeries and nonce pairs",
+    technique: "fault enumeration with accept-iff-genuine oracle over both cipher backends; proptest for random forgeries and nonce pairs (+ libFuzzer target tr_forge in the thorough tier: coverage-guided XOR masks / cuts / extensions over the genuine transport message, judged by the same oracle)",
     assumptions: &["cryptographic strength is not tested: forgeries are alterations of genuine traffic, not attempts to find tag collisions"],
     panic_is_violation: false,
     needs_refnoise: false,
@@ -37,6 +37,9 @@ pub enum Forgery {
     Garbage(usize),
     /// an all-zero message of this length
     Zeros(usize),
+    /// byte-level forgery from the fuzzer: the genuine message cut by `trunc` bytes (modulo its
+    /// length), XORed with `mask`; mask bytes beyond the message are appended
+    Mask { trunc: u16, mask: Vec<u8> },
     /// same-index message of a parallel session with the SAME static keys / psks but fresh ephemerals
     OtherSessionSameStatics,
 }
@@ -99,6 +102,56 @@ fn forged_buf(kind: u8, msg_len: usize) -> Vec<u8> {
     vec![0u8; n]
 }
 
+fn apply_mask(genuine: &[u8], trunc: u16, mask: &[u8]) -> Vec<u8> {
+    let mut m = genuine.to_vec();
+    if trunc > 0 && !m.is_empty() {
+        let t = trunc as usize % m.len();
+        m.truncate(m.len() - t);
+    }
+    for (i, b) in mask.iter().enumerate() {
+        if i < m.len() {
+            m[i] ^= *b;
+        } else if m.len() < 66_000 {
+            m.push(*b);
+        }
+    }
+    m
+}
+
+/// libFuzzer entry: bytes -> (configuration, direction, mode, payload length, prior messages,
+/// output buffer class, counter jump, cut, XOR mask over the genuine transport message).
+pub fn fuzz_case(data: &[u8]) -> Option<Case> {
+    if data.len() < 8 {
+        return None;
+    }
+    let cfgs = configs(0xF4, false);
+    let spec = cfgs[data[0] as usize % cfgs.len()].clone();
+    let plen = [0usize, 1, 5, 16, 33, 300, 4096][data[1] as usize % 7];
+    let jump = [0u64, 0, 254, 65534, (1 << 32) - 2, (1 << 56) + 1, (1 << 63) + 5][data[3] as usize % 7];
+    let trunc = u16::from_le_bytes([data[6], data[7]]);
+    Some(Case {
+        spec,
+        r_to_i: data[2] & 1 == 1,
+        plen,
+        prior: (data[2] >> 1) as usize % 3,
+        forgery: Forgery::Mask { trunc, mask: data[8..].to_vec() },
+        stateless: data[2] & 8 != 0,
+        fbuf: data[4],
+        jump,
+        again: data[5] % 3,
+    })
+}
+
+/// Err(message) only for a violation of the property.
+pub fn fuzz_judge(data: &[u8]) -> Result<(), String> {
+    let Some(c) = fuzz_case(data) else { return Ok(()) };
+    let mut acc = Acc::default();
+    match oracle(&c, &mut acc) {
+        Err(f) if !f.setup => Err(format!("{}\ncase: {:?}", f.msg, c)),
+        _ => Ok(()),
+    }
+}
+
 fn oracle(c: &Case, acc: &mut Acc) -> CaseResult {
     let spec = &c.spec;
     let name = spec.name_string();
@@ -136,8 +189,8 @@ fn oracle(c: &Case, acc: &mut Acc) -> CaseResult {
                         x
                     },
                     Forgery::Garbage(l) => expand(spec.key_seed, 23, *l),
-            Forgery::Zeros(l) => vec![0u8; *l],
                     Forgery::Zeros(l) => vec![0u8; *l],
+                    Forgery::Mask { trunc, mask } => apply_mask(&m, *trunc, mask),
                     Forgery::OtherSession | Forgery::OtherSessionSameStatics => {
                         let p2 = other_session(spec, *f == Forgery::OtherSessionSameStatics)?;
                         let t2 = if c.r_to_i { p2.r } else { p2.i }.into_stateless_transport_mode().map_err(|x| Fail::setup(e(&x)))?;
@@ -205,6 +258,7 @@ fn oracle(c: &Case, acc: &mut Acc) -> CaseResult {
             },
             Forgery::Garbage(l) => expand(spec.key_seed, 23, *l),
             Forgery::Zeros(l) => vec![0u8; *l],
+            Forgery::Mask { trunc, mask } => apply_mask(&genuine, *trunc, mask),
             Forgery::OtherSession | Forgery::OtherSessionSameStatics => {
                 let p2 = other_session(spec, c.forgery == Forgery::OtherSessionSameStatics)?;
                 let mut t2 = if c.r_to_i { p2.r } else { p2.i }.into_transport_mode().map_err(|x| Fail::setup(e(&x)))?;
@@ -387,5 +441,12 @@ pub fn run(ctx: &Ctx) {
 }
 
 pub fn replay(ctx: &Ctx, sub: &str, case: &serde_json::Value, origin: &str) -> bool {
+    if sub == "fuzz_bytes" {
+        let bytes: Vec<u8> = serde_json::from_value(case.clone()).unwrap_or_default();
+        return match fuzz_case(&bytes) {
+            Some(c) => ctx.replay_case::<Case, _>("random_forgeries", &serde_json::to_value(c).unwrap(), oracle, origin),
+            None => true,
+        };
+    }
     ctx.replay_case::<Case, _>(sub, case, oracle, origin)
 }
